@@ -84,7 +84,7 @@ func reachPrecise(p *core.Program, entries ...*ssa.Function) map[*ssa.Function]b
 
 func c01(r *core.Run) {
 	p := r.P
-	r.Explain = "C01 decided as an exhaustive census of nondeterminism sources on everything reachable from the fingerprint entry points: (ORD) every range over a map has only order-insensitive effects (delete from the ranged map, idempotent writes, commutative integer accumulation, writes keyed by the iteration's own key, memo fills, per-iteration scratch) or appends to a collection that is totally sorted (sort.Strings or a comparator from the reviewed TOTAL table) before any order-sensitive use; early exits may not carry an element-dependent value out of the loop; (POOL) every field of a sync.Pool-managed type is reset on the acquire path, assigned by the acquire function, reset-before-use, or covered by a checked premise; (GLOB) package-level variables of the packages in scope are never written at run time unless they are sync.* values or all their accesses hold one mutex; (SRC) no goroutine start, channel operation, select, clock, random source, environment, working directory or pid is used, and source positions flow only into the position fields of a result; (SORTDET) sort comparators on the path are pure functions of their elements. Not decided: determinism of go/packages and go/ssa themselves (trusted)."
+	r.Explain = "C01 decided as an exhaustive census of nondeterminism sources on everything reachable from the fingerprint entry points: (ORD) every range over a map has only order-insensitive effects (delete from the ranged map, idempotent writes, commutative integer accumulation, writes keyed by the iteration's own key, memo fills, per-iteration scratch) or appends to a collection that is totally sorted (sort.Strings or a comparator from the reviewed TOTAL table) before any order-sensitive use; early exits may not carry an element-dependent value out of the loop; (POOL) every field of a sync.Pool-managed type is reset on the acquire path, assigned by the acquire function, reset-before-use, or covered by a checked premise; (GLOB) package-level variables of the packages in scope are never written at run time unless they are sync.* values or all their accesses hold one mutex; (SRC) no goroutine start, channel operation, select, clock, random source, environment, working directory or pid is used, and source positions flow only into the position fields of a result; (SORTDET) sort comparators on the path are pure functions of their elements. Not decided: determinism of go/packages and go/ssa themselves (trusted). (POOL, sharpened) a reset counts only if it happens on every path through the reset function, and a delete loop only if it ranges over the very map it empties."
 	r.Undecided = []string{"determinism of go/packages, go/types and go/ssa (trusted base)", "byte-identity across different Go/x-tools versions"}
 	scope, ne := scopeOf(p, [][2]string{{"pkg/diff", "FingerprintSource"}, {"pkg/diff", "FingerprintSourceAdvanced"}, {"pkg/diff", "FingerprintPackages"}, {"pkg/diff", "GenerateFingerprint"}})
 	r.Floor("C01.ORD", "fingerprint entry points", ne, 3)
